@@ -256,6 +256,16 @@ def check(ctx):
     wraps = [n for n in vcfg.nodes if n.kind == "stmt" and isinstance(n.ast, ast.Return) and "self._wrap(" in unparse(n.ast)]
     okw = bool(wraps) and all(any("_boolop_contains_subproc" in t and p for t, p in [(unparse(t), p) for t, p in vcfg.guards(w)]) and not any("self._inside_boolop" == unparse(t) and p for t, p in vcfg.guards(w)) for w in wraps)
     ctx.ob("R3", f"{BP}:_SubprocChainRaiseWrapper._visit_boolop", "only an outermost chain that contains a subprocess is wrapped", okw, key="wrap-condition")
+    bc = bp.func("_boolop_contains_subproc")
+    bparam = bc.args.args[0].arg
+    deep = False
+    for n in ast.walk(bc):
+        if isinstance(n, ast.Call) and call_name(n) in ("ast.walk",) and n.args and unparse(n.args[0]) == bparam:
+            deep = True
+        if isinstance(n, ast.Call) and call_name(n) == "_boolop_contains_subproc":
+            deep = True  # explicit recursion into nested chains
+    uses_pred = any(call_name(c) == "_is_subproc_helper_call" for c in calls_in(bc, local=False))
+    ctx.ob("R3", f"{BP}:_boolop_contains_subproc", "the predicate that decides whether the outermost chain is wrapped looks for subprocess operands at any depth (chains of groups such as `a && b || c && d` have no plain command directly under the top operator)", deep and uses_pred, key="contains-subproc|shallow", where=loc(bc))
     mw = bp.func("_SubprocChainRaiseWrapper._maybe_wrap_stmt_value")
     ok = any(call_name(c) == "_is_raising_subproc_helper_call" for c in calls_in(mw)) and any("self._wrap(" in unparse(n) for n in walk_local(mw) if isinstance(n, ast.Assign))
     ctx.ob("R3", f"{BP}:_SubprocChainRaiseWrapper._maybe_wrap_stmt_value", "a standalone raising-helper call is wrapped", ok, key="standalone-wrap")
@@ -403,7 +413,8 @@ META = {
     "verifies every raising path is licensed (failed, not !(), not @error_ignore, flags) and every non-raising path "
     "carries a documented exemption — for all flag/capture/decorator combinations, which the ~60 sampled cases do "
     "not enumerate (the `false x || ...` vs `ls /nope || ...` divergence was a row of this table). It also shows "
-    "that every grammar-built chain is marked, the wrapper covers all statement kinds and the whole helper family "
+    "that every grammar-built chain is marked, the predicate deciding whether the outermost chain is wrapped "
+    "searches subprocess operands at any depth, the wrapper covers all statement kinds and the whole helper family "
     "minus !(), token->helper->capture kind agree across three modules, helpers that return text re-check the "
     "pipeline they ran, XSH.exit is honoured on both sides of a pipeline and escaping exceptions give exit 1. "
     "Python's own and/or evaluation and real exit codes are trusted.",
